@@ -159,6 +159,13 @@ def check(repo: Repo) -> Result:
             except Exception:
                 pass
     res.check(got == {4: 2**24 + 1, 8: 2**53 + 1}, "LARGE_INPUT", ARR, "thresholds must be 2**24+1 (float32) and 2**53+1 (float64)", {4: 2**24 + 1, 8: 2**53 + 1}, got, rid=r2)
+    from rules import c03, c09
+    from rules.common import share
+
+    r3 = res.rule("C17-R3", "copying base / unit conversions multiply the data by the (float) factor on every path: a path that hands back unmultiplied data keeps integer data integer while the in-place route promotes", floor=3)
+    share(res, r3, "C03", lambda t: c03.apply_idiom(repo, t), ["C03-R2"], want=lambda k: k in ("in_units", "in_base", "in_base:result", "in_units:result", "convert_to_units"), min_keys=3)
+    r4 = res.rule("C17-R4", "equivalence formulas have no step with integer (truncating) semantics: copying and in-place equivalence conversions of integer data agree", floor=30)
+    share(res, r4, "C09", lambda t: t.__dict__.update(c09.check(repo).__dict__), ["C09-R8"], min_keys=30)
     return res
 
 
@@ -179,6 +186,8 @@ def _warning_site(res, fn, rid, name, data_root):
     res.check(ok, f"{name}:warning", fn.where(w[0]) if w else fn.where(), f"{name} must warn (RuntimeWarning) when the magnitude of integer data exceeds LARGE_INPUT for their item size", rid=rid)
 
 
+UO = "unyt/unit_object.py"
+
 MUTANTS = [
     Mutant("in_units-int-target", ARR, "unyt_array.in_units", 'new_dtypekind = "c" if self.dtype.kind == "c" else "f"', 'new_dtypekind = "c" if self.dtype.kind == "c" else self.dtype.kind', ("C17-R1",)),
     Mutant("in_units-no-widen", ARR, "unyt_array.in_units", "dsize = max(2, self.dtype.itemsize)", "dsize = self.dtype.itemsize", ("C17-R1",)),
@@ -191,4 +200,5 @@ MUTANTS = [
     Mutant("out-promotion-removed", ARR, "unyt_array.__array_ufunc__", "                    np.copyto(out, float_values)\n", "", ("C17-R1",)),
     Mutant("threshold-off", ARR, None, "LARGE_INPUT = {4: 16777217, 8: 9007199254740993}", "LARGE_INPUT = {4: 16777217, 8: 9007199254740992}", ("C17-R2",)),
     Mutant("warning-dropped", ARR, "unyt_array.in_units", "                if large and np.any(np.abs(self.d) > large):", "                if False:", ("C17-R2",)),
+    Mutant("in-base-skips-unit-factor", ARR, "unyt_array.in_base", "ret = self.v * conv", "ret = self.v\n        if conv != 1:\n            ret = ret * conv", ("C17-R3",)),
 ]
